@@ -108,7 +108,12 @@ func innermostLoop(fn *ssa.Function, b *ssa.BasicBlock) *loopInfo {
 
 func (x *Exec) enterBlock(fr *Frame, st *State, b *ssa.BasicBlock) ([]Outcome, bool, *State) {
 	fr.visits[b]++
-	if fr.visits[b] > 40 {
+	limit := 40
+	if !x.unroll && x.inInit == false && len(fr.fn.Blocks) > 0 {
+		// a loop without invariant: a few iterations are explored (enough to refute, never to prove)
+		limit = x.loopBound
+	}
+	if fr.visits[b] > limit {
 		return abortOut(st, "loop without invariant in %s (block %d revisited)", fr.fn, b.Index), true, nil
 	}
 	// a path in phase 1 that leaves its loop without reaching the cut point is dropped
